@@ -52,6 +52,23 @@ HARNESSES = [
              'thorough': {'defs': {'AMAX': 6}, 'unwind': 8, 'cap': 3000}}},
 ]
 
+# Tier B: one macro, definition -> call -> expansion, real code without any cut.  One entry per first body item.
+_ITEMS = ['a', 'b', 'x', '#a', 'a##b', ',']
+for _i, _t in enumerate(_ITEMS):
+    HARNESSES.append({
+  'id': 'c08_expand_%d' % _i,
+  'property': 'C08',
+  'src': 'c08_expand.cxx',
+  'entry': 'harness_c08_expand_items',
+  'tus': _TUS, 'skip_ctors': _SKIP, 'cut': _CUT_VEC_REALLOC,
+  'desc': '#define F(a,b) <body>; F(p,q): CPPManifest ctor + parse_parameters + save_expansion + extract_args + expand/r_expand/stringify '
+          '+ expand_manifests (empty macro table), bodies starting with item "%s"' % _t,
+  'domain': 'every body of 1..KMAX blank-separated items from {a, b, x, #a, a##b, ","} whose first item is "%s" (enumerated concretely: '
+            'no symbolic input, the solver executes each body)' % _t,
+  'oracle': 'the expansion, split into preprocessing tokens, equals the replacement list of C11 6.10.3 item by item',
+  'bounds': {'quick': {'defs': {'KMAX': 1, 'FIRST_ITEM': _i}, 'unwind': 48, 'cap': 600},
+             'thorough': {'defs': {'KMAX': 4, 'FIRST_ITEM': _i}, 'unwind': 48, 'cap': 3000}}})
+
 PROPERTY_INFO = {'C08': {'level': 'model_checking',
          'explanation': 'bounded symbolic execution (CBMC) of the real CPPManifest code (stringify, extract_args, definition parsing and '
                         'expansion of one macro) against references written from C11 6.10.3',
